@@ -272,6 +272,13 @@ func (c16) Run(e *Env) {
 	}
 	reqSeen := 0
 	seeReqs := func() {
+		for i := 0; i < fab.NReqs(); i++ {
+			// a request the upstream accepted must have been a payload it can read: an earlier failed
+			// flush must not leave anything behind that corrupts a later one
+			if r := fab.Req(i); r.Outcome == "status" && r.Status == okStatus && strings.HasPrefix(r.Canon, "undecodable-") && r.Path == bb.Path {
+				e.Failf("C16/accepted-payload-not-valid", "%s: request %d (%d bytes, attempt %d) was accepted by the upstream, but it is not a payload of this protocol: what the flush wanted to deliver did not arrive although its callback may report success", kind, r.N, len(r.Body), r.Attempt)
+			}
+		}
 		for ; reqSeen < fab.NReqs(); reqSeen++ {
 			r := fab.Req(reqSeen)
 			if r.Attempt > 1 {
